@@ -2,6 +2,7 @@ package command
 
 import (
 	"bufio"
+	"bytes"
 	"context"
 	"errors"
 	"io"
@@ -9,6 +10,7 @@ import (
 	"os"
 	"strconv"
 	"strings"
+	"sync"
 	"time"
 
 	"github.com/google/gopacket/layers"
@@ -357,12 +359,7 @@ func (o *ipPortScanCmdOpts) newIPPortGenerator() (reqgen scan.RequestGenerator) 
 			return os.Open(o.ipFile)
 		})
 	}
-	ipgen := scan.NewFileIPGenerator(func() (io.ReadCloser, error) {
-		if o.ipFile == "-" {
-			return io.NopCloser(os.Stdin), nil
-		}
-		return os.Open(o.ipFile)
-	})
+	ipgen := scan.NewFileIPGenerator(newIPFileOpener(o.ipFile))
 	return scan.NewIPPortGenerator(ipgen, scan.NewPortGenerator())
 }
 
@@ -489,13 +486,31 @@ func (o *genericScanCmdOpts) newIPPortGenerator() (reqgen scan.RequestGenerator)
 			return os.Open(o.ipFile)
 		})
 	}
-	ipgen := scan.NewFileIPGenerator(func() (io.ReadCloser, error) {
-		if o.ipFile == "-" {
-			return io.NopCloser(os.Stdin), nil
-		}
-		return os.Open(o.ipFile)
-	})
+	ipgen := scan.NewFileIPGenerator(newIPFileOpener(o.ipFile))
 	return scan.NewIPPortGenerator(ipgen, scan.NewPortGenerator())
+}
+
+// newIPFileOpener returns a function that opens the file with IPs to scan.
+// The file is opened once per port; stdin can be consumed only once,
+// so its content is kept in memory to be read again for every port.
+func newIPFileOpener(ipFile string) scan.OpenFileFunc {
+	if ipFile != "-" {
+		return func() (io.ReadCloser, error) {
+			return os.Open(ipFile)
+		}
+	}
+	var once sync.Once
+	var data []byte
+	var err error
+	return func() (io.ReadCloser, error) {
+		once.Do(func() {
+			data, err = io.ReadAll(os.Stdin)
+		})
+		if err != nil {
+			return nil, err
+		}
+		return io.NopCloser(bytes.NewReader(data)), nil
+	}
 }
 
 func parsePortRange(portsRange string) (r *scan.PortRange, err error) {
